@@ -18,7 +18,10 @@ import (
 
 // ---------- data
 
-type xSub struct{ C int64 }
+type xSub struct {
+	C  int64
+	ID int64
+}
 type xA struct{ X int64 }
 type xB struct{ Y int64 }
 type xUnion struct {
@@ -32,6 +35,7 @@ type xItem struct {
 	Sub  *xSub
 	Nums []int64
 	U    *xUnion
+	Subs []*xSub
 }
 type xRoot struct {
 	Items []*xItem
@@ -145,6 +149,10 @@ func xIDOf(src interface{}) int64 {
 	switch s := src.(type) {
 	case *xItem:
 		return s.ID
+	case *xSub:
+		if s != nil {
+			return s.ID
+		}
 	}
 	return 0
 }
@@ -176,6 +184,7 @@ func xBuildSchema(cfg *xConfig) *xSchema {
 	itemT.fields["sub"] = &xField{name: "Item.sub", typ: subT, get: func(s interface{}) interface{} { return s.(*xItem).Sub }}
 	itemT.fields["nums"] = &xField{name: "Item.nums", typ: &xType{kind: xtList, elem: intT}, get: func(s interface{}) interface{} { return s.(*xItem).Nums }}
 	itemT.fields["u"] = &xField{name: "Item.u", typ: uT, get: func(s interface{}) interface{} { return s.(*xItem).U }}
+	itemT.fields["subs"] = &xField{name: "Item.subs", typ: &xType{kind: xtList, elem: subT}, get: func(s interface{}) interface{} { return s.(*xItem).Subs }}
 	queryT := &xType{kind: xtObject, name: "Query", fields: map[string]*xField{}}
 	queryT.fields["items"] = &xField{name: "Query.items", typ: &xType{kind: xtList, elem: itemT}, get: func(s interface{}) interface{} { return s.(*xRoot).Items }}
 	queryT.fields["one"] = &xField{name: "Query.one", typ: itemT, get: func(s interface{}) interface{} { return s.(*xRoot).One }}
@@ -230,7 +239,7 @@ func (sch *xSchema) gqlType(t *xType, cache map[*xType]Type) Type {
 
 func xSortedFieldNames(t *xType) []string {
 	// fixed order so that the interpreter and the native build agree
-	order := []string{"id", "v", "e", "sub", "nums", "u", "items", "one", "n", "c", "x", "y"}
+	order := []string{"id", "v", "e", "sub", "nums", "u", "subs", "items", "one", "n", "c", "x", "y"}
 	var out []string
 	for _, n := range order {
 		if _, ok := t.fields[n]; ok {
@@ -434,6 +443,12 @@ func (sch *xSchema) xEval(t *xType, src interface{}, nodes []*xNode, path []stri
 			out := make([]interface{}, len(l))
 			for i, e := range l {
 				out[i] = e
+			}
+			return out
+		case []*xSub:
+			out := make([]interface{}, len(l))
+			for i, e := range l {
+				out[i] = sch.xEval(t.elem, e, nodes, append(append([]string{}, path...), strconv.Itoa(i)), errs)
 			}
 			return out
 		}
@@ -679,9 +694,12 @@ func xMkItem(name string, id int64, subNil bool, u int, nums int) *xItem {
 
 // xFixedRoot: two items of different shape and a non-nil "one".
 func xFixedRoot() *xRoot {
-	return &xRoot{
+	r := &xRoot{
 		Items: []*xItem{xMkItem("i1", 1, false, 1, 2), xMkItem("i2", 2, true, 2, 0)},
 		One:   xMkItem("one", 3, false, 2, 1),
 		N:     nondet.Int64("n"),
 	}
+	r.Items[0].Subs = []*xSub{{C: nondet.Int64("i1.s0"), ID: 11}, {C: nondet.Int64("i1.s1"), ID: 12}}
+	r.Items[1].Subs = []*xSub{{C: nondet.Int64("i2.s0"), ID: 21}, {C: nondet.Int64("i2.s1"), ID: 22}}
+	return r
 }
